@@ -161,19 +161,105 @@ def gen_series_set(rng, nmax=5):
     return dict(step=step, shape=shape, series=[dict(x=s['x'], y=s['y']) for s in out])
 
 
+# ----------------------------------------------------------------- call forms and call histories (C12)
+
+# How the caller hands the samples over.  The property quantifies over "any sampled series": the same numbers held
+# as a float64 array, as a view into a larger array, as a read-only array, as integers, as float32, with the abscissae
+# in a list (the form used by regrid.py's own example).
+CALL_FORMS = ['f64', 'f64', 'f64-view', 'f64-rev', 'f64-col', 'f64-readonly', 'x-list', 'int', 'int32', 'f32']
+POW2_STEPS = [1.0, 0.5, 0.25, 2.0, 4.0]
+INT_STEPS = [1.0, 2.5, 0.5, 0.3, 0.1, 3.0, 2.0, 7.0, 0.7]
+STEP_FORMS = ['float', 'float', 'np.float64', 'int']
+
+
+def gen_exact_series(rng, kind, step, nmax=9):
+    """A series whose numbers survive the narrower type exactly.
+    'int': integer ordinates and integer abscissae (indices or UNIX epochs);
+    'f32': ordinates that are multiples of step / 8 (step a power of two) of small size and small integer abscissae:
+    with any step that is a power of two every quotient and every difference is exact in float32 as well, so float32 arithmetic anywhere
+    inside the implementation gives the same real numbers as binary64 (with other steps the float32 quotient is a
+    different series from the one the caller holds at 1e-7 relative: recorded by c12.call_probes, not judged)."""
+    cls = rng.choice(['rising', 'falling', 'nonmono', 'flat', 'zigzag', 'nonmono'])
+    n = rng.randrange(2, nmax)
+    ks = gen_levels(rng, cls, n)
+    if kind == 'int':
+        m = rng.choice([1, 1, 2, 3, 10])
+        ys = [float(k * m + rng.choice([0, 0, 0, 1])) for k in ks]
+        xs = gen_abscissae(rng, rng.choice(['index', 'epoch', 'offset']), n)
+    else:
+        ys = []
+        for i, k in enumerate(ks):
+            if i and k == ks[i - 1] and rng.random() < 0.5:
+                ys.append(ys[-1])
+            else:
+                ys.append((k + rng.choice([0.0, 0.0, 0.5, 0.25, 0.125, 0.875])) * step)
+        xs = gen_abscissae(rng, rng.choice(['index', 'offset']), n)
+    return dict(cls=cls + '-' + kind, x=xs, y=ys)
+
+
+def gen_call_history(rng, fn=None, form=None):
+    """One set of arrays and a sequence of calls made with those same arrays: regrid on one of the series and / or
+    build_head_mapping on all of them, one to three calls, with the same and with a different grid step.
+    -> dict(form, series=[{x, y}], calls=[{fn, i, step, stepform}])."""
+    fn = fn or rng.choice(['regrid', 'regrid', 'mapping', 'mixed'])
+    form = form or rng.choice(CALL_FORMS)
+    if form == 'f32':
+        pool = POW2_STEPS
+    elif form in ('int', 'int32'):
+        pool = INT_STEPS
+    else:
+        pool = STEPS + STEPS + EXTRA_STEPS
+    s1 = rng.choice(pool)
+    s2 = rng.choice([s for s in pool if s != s1])
+    nser = 1 if fn == 'regrid' else rng.randrange(1, 5)
+    series = []
+    for _ in range(nser):
+        if form == 'f32':
+            s = gen_exact_series(rng, 'f32', min(s1, s2))
+        elif form in ('int', 'int32'):
+            s = gen_exact_series(rng, 'int', s1)
+            if form == 'int32':
+                s['x'] = [float(i) for i in range(len(s['x']))] if max(s['x']) >= 2 ** 31 else s['x']
+        else:
+            cls = rng.choice(['rising', 'falling', 'nonmono', 'flat', 'onlevel', 'ulp', 'zigzag', 'twopoint', 'wide'])
+            s = gen_series(rng, cls, None, s1, nmax=9)
+        series.append(dict(x=s['x'], y=s['y']))
+    pattern = rng.choice([[s1, s1], [s1, s2], [s1, s2, s1], [s1], [s1, s1, s2]])
+    calls = []
+    for j, st in enumerate(pattern):
+        f = fn if fn != 'mixed' else rng.choice(['regrid', 'mapping'])
+        stepform = rng.choice(STEP_FORMS)
+        if stepform == 'int' and st != math.floor(st):
+            stepform = 'float'
+        calls.append(dict(fn=f, i=rng.randrange(nser) if f == 'regrid' else None, step=st, stepform=stepform))
+    return dict(form=form, series=series, calls=calls)
+
+
 # ----------------------------------------------------------------- datasets (C13)
 
 DS_CLASSES = ['decay', 'decay', 'split', 'storms', 'sparse', 'bounds']
 GRID_STEPS = [1.0, 0.5, 2.5, 0.1, 0.3, 5.0, 2.0]
 
 
-def gen_curve_record(rng, cls=None):
+ODD_TIME_STEPS = [90, 100, 450, 3900, 30, 45, 1000, 7, 5400]
+
+
+def gen_curve_record(rng, cls=None, odd_steps=False, open_in_storm=False):
     """A record (same shape as harness.gen_classify records) with several storms,
     each followed by a decaying recession that comes back to about the same
     level, so that rises and recessions overlap in level.  Thresholds are chosen
-    so that storms are matched to rises."""
+    so that storms are matched to rises.
+    odd_steps: the time step is drawn from ODD_TIME_STEPS (or is the given number of seconds; not a whole number of minutes: 90, 100, 450, 30, 45, 7 s;
+    not a whole number of hours: 3900, 5400 s; not a divisor of an hour: 1000 s) instead of 1200 / 1800 / 3600 s.
+    open_in_storm: no dry stretch at the head of the record: the first rainfall time slice of the database is the
+    first slice of a matched storm and the water level rises from its very first sample.
+    Both options are off by default and draw nothing from `rng` when off."""
     cls = cls or rng.choice(DS_CLASSES)
     step = rng.choice([1800, 3600, 1200])
+    if odd_steps is True:
+        step = rng.choice(ODD_TIME_STEPS)
+    elif odd_steps:
+        step = int(odd_steps)             # the caller names the step
     thr_s = rng.choice([2.0, 4.0, 1.0])
     thr_j = rng.choice([2.0, 4.0, 5.0])
     step_h = step / 3600.0
@@ -183,7 +269,7 @@ def gen_curve_record(rng, cls=None):
     base = rng.choice([-300.0, -120.5, -40.0, 10.0, -75.25])
     rain, zeta = [], [base]
     # leading dry stretch (not a recession: no rain seen yet)
-    for _ in range(rng.randrange(1, 3)):
+    for _ in range(0 if open_in_storm else rng.randrange(1, 3)):
         rain.append(0.0)
         zeta.append(zeta[-1] - rng.choice([0.0, 0.25, 0.5]))
     for _ in range(nstorm):
@@ -227,5 +313,10 @@ def gen_curve_record(rng, cls=None):
         a = rng.randrange(2, len(rain) - 3)
         missing = [a]
     t0 = rng.choice([1361318400, 1356998400, 946684800]) // step * step
-    return dict(cls=cls, step=step, thr_s=thr_s, thr_j=thr_j, t0=t0, rain=rain, zeta=zeta,
-                missing=missing, lead=rng.randrange(0, 2), trail=rng.randrange(1, 3), grid=grid)
+    rec = dict(cls=cls, step=step, thr_s=thr_s, thr_j=thr_j, t0=t0, rain=rain, zeta=zeta,
+               missing=missing, lead=rng.randrange(0, 2), trail=rng.randrange(1, 3), grid=grid)
+    if odd_steps:
+        rec['cls'] += ':step-%d' % step
+    if open_in_storm:
+        rec['cls'] += ':opens-in-storm'
+    return rec
